@@ -1326,7 +1326,7 @@ def ntdll_RtlEnlargedUnsignedMultiply(jitter):
 def ntdll_RtlLargeIntegerSubtract(jitter):
     ret_ad, args = jitter.func_args_stdcall(['a_low', 'a_high',
                                              'b_low', 'b_high'])
-    a = (args.a_high << 32) + args.a_low - (args.b_high << 32) + args.b_low
+    a = (args.a_high << 32) + args.a_low - ((args.b_high << 32) + args.b_low)
     jitter.func_ret_stdcall(ret_ad, a & 0xffffffff, (a >> 32) & 0xffffffff)
 
 
